@@ -9,7 +9,7 @@ owner-computes matrices bitwise equal, the critical-section accumulation (DipSou
 When a proof / the translator / a footprint breaks: hammer the assembly functions (16 threads, many repetitions) to
 exhibit a differing entry."""
 import os, sys, json, math, time
-import core, ombuild, models
+import core, ombuild, models, c05clang
 
 PROP = "C05"
 THREADS = [1, 2, 3, 5, 8, 16]
@@ -17,9 +17,11 @@ FNAMES = {1: "HeadMat", 2: "DipSourceMat(adaptive)", 3: "SurfSourceMat", 4: "Hea
           7: "DipSourceMat(no adapt)", 8: "DipSource2MEGMat", 9: "Surf2VolMat", 10: "DipSource2InternalPotMat"}
 CRITICAL = {2, 7}           # results that contain the omp-critical accumulation: equal up to summation order only
 ROUND_TOL = 1e-12           # |a-b| <= ROUND_TOL * max|entry| : thousands of ulps, a lost update is >= 1e-6 relative
-LOOPNAMES = {1: "D", 2: "Dstar", 3: "S diagonal", 4: "S non-diagonal", 5: "N diagonal (S in the target)", 6: "N diagonal (separate S)",
+HOOKLOOPS = {1: (11, "operatorFerguson"), 2: (12, "operatorDipolePotDer"), 3: (13, "operatorDipolePot")}
+LOOPNAMES = {9: "deflate", 1: "D", 2: "Dstar", 3: "S diagonal", 4: "S non-diagonal", 5: "N diagonal (S in the target)", 6: "N diagonal (separate S)",
              7: "N non-diagonal (S in the target)", 8: "N non-diagonal (separate S)"}
-ENV = {"OMP_WAIT_POLICY": "passive", "OMP_DYNAMIC": "false", "OMP_PROC_BIND": "false"}
+ENV = {"OMP_WAIT_POLICY": "passive", "OMP_DYNAMIC": "false", "OMP_PROC_BIND": "false", "KMP_BLOCKTIME": "0"}
+APPLE_SIG = "operatorDipolePotDer: omp critical compiled out under __APPLE__ (macOS builds): DipSourceMat depends on the thread schedule"
 
 # ------------------------------------------------------------------ models on disk
 def write_case_model(rng, wd, k, m, src_radius, src_centre=(0, 0, 0)):
@@ -115,6 +117,7 @@ def canon_impl(ints):
     body = ints[2:]
     for i in range(0, len(body), 5):
         r, th, c, idx, w = body[i:i + 5]
+        if th < 0: continue          # accesses outside parallel regions (sequential prologue, e.g. deflate's coefficient)
         d.setdefault((r, th), []).append((c, idx, w))
     return {k: sorted(v) for k, v in d.items()}, nreg
 
@@ -169,7 +172,7 @@ def tsan_run(ck, bdir, wd, mods):
         srcs = [os.path.join(V, "harness", "h_c05.cpp")] + sorted(glob.glob(R + "/OpenMEEGMaths/src/*.cpp"))
         for c in sorted(glob.glob(R + "/OpenMEEGMaths/src/*.C")): srcs += ["-x", "c++", c]
         srcs += ["-x", "c++"] + sorted(glob.glob(R + "/OpenMEEG/src/*.cpp"))
-        cmd = ["timeout", "1500", "clang++", "-std=gnu++17", "-O1", "-g", "-fopenmp", "-fsanitize=thread", "-w"] + defs + inc + srcs + \
+        cmd = ["timeout", "1500", "clang++", "-std=gnu++17", "-O1", "-g", "-fopenmp", "-fsanitize=thread", "-w", "-DC05_STATIC_BUILD"] + defs + inc + srcs + \
               ["-o", out, "-llapacke", "-lopenblas", "-lmatio", "-lhdf5_serial", "-ldl", "-rdynamic"]
         p = subprocess.run(cmd, stdout=subprocess.PIPE, stderr=subprocess.STDOUT)
         if p.returncode != 0:
@@ -220,7 +223,7 @@ def main(replay=None):
         try:
             import re
             log = open(os.path.join(ck.workdir, "coq_make.log")).read()
-            m = re.search(r'File "\./(Geom/ParLoops\w*\.v|Gen/GenParLoops\.v|Props/Properties_C05\.v)", line (\d+)[^\n]*\n(Error:?[^\n]*(?:\n[^\n]+){0,6})', log)
+            m = re.search(r'File "\./(Geom/ParLoops\w*\.v|Gen/\w+\.v|Props/Properties_C05\.v)", line (\d+)[^\n]*\n(Error:?[^\n]*(?:\n[^\n]+){0,6})', log)
             if m:
                 src = open(os.path.join(core.COQ, m.group(1))).read().split("\n")[:int(m.group(2))]
                 names = [re.match(r"\s*(?:Lemma|Theorem|Definition|Example)\s+([\w']+)", l) for l in src]
@@ -241,7 +244,11 @@ def main(replay=None):
         rrng = random.Random(int(rp.get("seed", ck.seed)) * 1000003 + int(hashlib.sha1(PROP.encode()).hexdigest()[:6], 16))
         mods, kx = build_models(rrng, wd, rp.get("tier", "quick") != "thorough")
         cases = rp.get("cases", [])
-        rc, io, err = core.run_harness(hb, cases, wd, env=ENV, timeout=1200)
+        rb = hb
+        if rp.get("binary") in ("h_c05_clang", "h_c05_clang_apple") and c05clang.available():
+            b1, b2, _ = c05clang.build(bdir, os.path.join(core.VERIF, "harness", "h_c05.cpp"))
+            rb = b1 if rp["binary"] == "h_c05_clang" else b2
+        rc, io, err = core.run_harness(rb, cases, wd, env=ENV, timeout=1200)
         for c, o in zip(cases, io):
             print("replay: %s\n  -> %s" % (c, o[:400]))
             parts = c.split()
@@ -307,6 +314,21 @@ def main(replay=None):
                     fp_cases.append((mc, hc, "%s, meshes %d,%d, loop %s, %s target" % (desc, a, b, LOOPNAMES[loop], "SymMatrix-like" if kind == 0 else "Matrix-like")))
     if len(fp_cases) > (40 if quick else 400):
         fp_cases = fp_cases[:40 if quick else 400]
+    hk_cases = []     # hook H1: (model case, harness case, description)
+    for k, desc, m, fs in mods:
+        if k not in dumps: continue
+        g = dumps[k]; n = g["npar"]
+        if max(len(x["ts"]) for x in g["meshes"]) > 64: continue
+        for a, ma in enumerate(g["meshes"]):
+            if ma["isolated"]: continue
+            if ma["outermost"] and ma["cb"]:
+                mc = "c05 " + " ".join(map(str, [9, 0, n] + mesh_wire(ma) + mesh_wire(ma)))
+                fp_cases.append((mc, "c05 1 %d 9 %d %d 0 %d |" % (k, a, a, len(ma["vs"]) + 2), "%s, mesh %d, loop deflate (whole geometry), SymMatrix target" % (desc, a)))
+            if len(hk_cases) < (12 if quick else 60):
+                dp = [ck.rng.uniform(-0.2, 0.2) for _ in range(3)] + list(models.random_unit(ck.rng))
+                for hl, (ml, nm) in HOOKLOOPS.items():
+                    mc = "c05 " + " ".join(map(str, [ml, 0, 6 if hl == 1 else n] + mesh_wire(ma) + mesh_wire(ma)))
+                    hk_cases.append((mc, "c05 5 %d %d %d 8 | %s" % (k, hl, a, " ".join(core.fhex(x) for x in dp)), "%s, mesh %d, loop %s (hook H1)" % (desc, a, nm)))
     fp_mism = 0; fp_acc = 0; fp_regions = 0
     if fp_cases:
         t0 = time.time()
@@ -329,7 +351,32 @@ def main(replay=None):
             else:
                 fp_acc += sum(len(v) for v in A.values()); fp_regions += nra
         ck.log("footprints: %d cases, %d regions, %d accesses, %d mismatches, %.1fs" % (len(fp_cases), fp_regions, fp_acc, fp_mism, time.time() - t0))
-    if fp_mism: broken = True
+    hk_mism = 0; hk_iters = 0; hooks_present = None
+    if hk_cases:
+        mo = core.run_model([c[0] for c in hk_cases])
+        rc, io, err = core.run_harness(hb, [c[1] for c in hk_cases], wd, env=ENV, timeout=900, tag="hook")
+        for (mc, hc, desc), m_out, i_out in zip(hk_cases, mo, io):
+            mi = [int(x) for x in m_out.split()]; ii, _ = core.fparse(i_out)
+            if ii is None or mi == [-1] or ii == [-1] or ii[0] != 0:
+                ck.violation("hook footprint run failed: " + desc, "hook case could not be run (%s): model %s impl %s" % (desc, m_out[:60], i_out[:60]),
+                             dict(kind="hook", cases=[hc], model_cases=[mc]), found_input=False); hk_mism += 1; continue
+            if ii[1] == 0:
+                hooks_present = False; continue        # the tree has no H1 markers (hook commit absent): nothing to compare
+            hooks_present = True
+            A, _ = canon_model(mi)
+            W = {it: sorted({idx for (c, idx, w) in v if w == 1}) for (r, it), v in (A or {}).items()}
+            B = {}; p = 2
+            while p < len(ii):
+                r, it, nw = ii[p], ii[p + 1], ii[p + 2]; B[it] = sorted(ii[p + 3:p + 3 + nw]); p += 3 + nw
+            hk_iters += len(B)
+            if W != B:
+                hk_mism += 1
+                bad = [it for it in sorted(set(W) | set(B)) if W.get(it) != B.get(it)][:1]
+                ck.violation("hook footprint differs: " + desc,
+                             "the entries written by one iteration of the compiled loop differ from the generated descriptor's (%s): iteration %s: model writes %s, code changed %s"
+                             % (desc, bad, W.get(bad[0]) if bad else None, B.get(bad[0]) if bad else None), dict(kind="hook", cases=[hc], model_cases=[mc]), found_input=False)
+        ck.log("hook H1: %d cases, %d single-iteration runs compared, %d mismatches%s" % (len(hk_cases), hk_iters, hk_mism, "" if hooks_present else " (markers absent in this tree)"))
+    if fp_mism or hk_mism: broken = True
 
     # ------------------------------------------------------------ (b) the real assembly functions under different thread counts
     t0 = time.time()
@@ -351,6 +398,71 @@ def main(replay=None):
                     maxrel = max(maxrel, md / sc); crit_diff += 1 if nd else 0
     ck.log("differential: %d function x model cases, %d thread-count runs, max relative deviation of the critical-section vector %.2g, %.1fs"
            % (len(dcases), ndiff_runs, maxrel, time.time() - t0))
+
+    # ------------------------------------------------------------ (b') the same sources built with clang / libomp
+    clang = dict(available=c05clang.available())
+    if clang["available"]:
+        t0 = time.time()
+        try:
+            hc_plain, hc_apple, secs = c05clang.build(bdir, os.path.join(core.VERIF, "harness", "h_c05.cpp"))
+            clang["build_s"] = round(secs, 1)
+        except RuntimeError as e:
+            hc_plain = hc_apple = None
+            ck.violation("clang/libomp build fails", "the sources do not build with clang++ -fopenmp=libomp: %s" % e, dict(kind="build", error=str(e)), found_input=False)
+        if hc_plain:
+            kbig = [k for k, d, m, fs in mods if "42-vertex" in d]; kbig = kbig[0] if kbig else 0
+            ccases = []
+            for k, desc, m, fs in mods:
+                for f in (7, 2, 1):
+                    if f in fs: ccases.append((diff_case(k, f, [1, 16]), "clang/libomp build, " + desc, f, [1, 16]))
+            rc, io, err = core.run_harness(hc_plain, [c[0] for c in ccases], wd, env=ENV, timeout=1200, tag="clang")
+            nruns = 0; cmax = 0.0
+            before = len(ck.violations)
+            for (c, desc, f, th), line in zip(ccases, io):
+                r = judge_diff(ck, c, line, desc, f, th, found)
+                if r:
+                    nruns += len(r)
+                    for t, nd, md, sc in r:
+                        if f in CRITICAL and sc > 0: cmax = max(cmax, md / sc)
+            # repeated 16-thread runs of the critical-section accumulation
+            hcase = "c05 4 %d 7 16 %d |" % (kbig, 40 if quick else 300)
+            rc, io, err = core.run_harness(hc_plain, [hcase], wd, env=ENV, timeout=1200, tag="clangh")
+            ints, fl = core.fparse(io[0]) if io else (None, None)
+            if ints and ints[0] == 0 and ints[2] > 0 and fl[0] > ROUND_TOL * fl[1]:
+                ck.violation("clang/libomp build: DipSourceMat(no adapt): repeated 16-thread runs differ from the 1-thread result",
+                             "clang/libomp build, 42-vertex 3-layer model: %d repetitions of DipSourceMat with 16 threads differ from the 1-thread result beyond summation rounding (first flat index %d, max |diff| %.3g, max |entry| %.3g)"
+                             % (ints[2], ints[3], fl[0], fl[1]), dict(kind="hammer-clang", cases=[hcase], impl=[io[0]], binary="h_c05_clang"))
+                found.append(7)
+            for n in range(before, len(ck.violations)):       # replays of these cases need the clang binary
+                v = ck.violations[n]; rp = dict(v[2]); rp["binary"] = "h_c05_clang"; ck.violations[n] = (v[0], v[1], rp, v[3])
+            clang.update(differential_cases=len(ccases), runs=nruns, critical_vector_max_relative_deviation=cmax, hammer=io[0] if io else None)
+            # replay of the macOS refutation on real code: operators.cpp compiled with -D__APPLE__ (no omp critical)
+            reproduced = False; tried = 0
+            for _ in range(12):
+                acase = "c05 4 %d 7 16 40 |" % kbig
+                rc, io, err = core.run_harness(hc_apple, [acase], wd, env=ENV, timeout=1200, tag="apple")
+                ints, fl = core.fparse(io[0]) if io else (None, None); tried += 40
+                if ints and ints[0] == 0 and ints[2] > 0 and fl[0] > ROUND_TOL * fl[1]:
+                    reproduced = True
+                    ck.violation(APPLE_SIG,
+                                 "operators.cpp built with -D__APPLE__ (the guard `#ifndef __APPLE__` removes the omp critical of operatorDipolePotDer): %d of 40 DipSourceMat evaluations with 16 threads differ from the 1-thread result (max |diff| %.3g, max |entry| %.3g) -- theorem apple_loop_dipolepotder_schedule_independence_refuted reproduces on the code"
+                                 % (ints[2], fl[0], fl[1]), dict(kind="hammer-apple", cases=[acase], impl=[io[0]], binary="h_c05_clang_apple"))
+                    break
+            clang.update(apple_refutation_reproduced=reproduced, apple_repetitions=tried)
+            if not reproduced:
+                ck.notes.append("macOS configuration: the lost update predicted by apple_loop_dipolepotder_schedule_independence_refuted did not show in %d repetitions this run" % tried)
+        ck.log("clang/libomp: build %.1fs, %s differential cases, apple refutation reproduced: %s, %.1fs"
+               % (clang.get("build_s", -1), clang.get("differential_cases"), clang.get("apple_refutation_reproduced"), time.time() - t0))
+    else:
+        ck.notes.append("clang++/libomp not present: the clang configuration is covered by the theorems over GenParLoops_clang only")
+    # the configurations must agree on where the critical sections are, except for the recorded macOS case
+    cfg = gen.get("configs", {})
+    if cfg:
+        gcrit = cfg.get("gcc", {}).get("critical"); ccrit = cfg.get("clang", {}).get("critical")
+        if gcrit != ccrit:
+            ck.violation("critical sections differ between the g++ and clang configurations",
+                         "under the clang defines the loops with an omp critical are %s, under the g++ defines %s: a synchronisation construct is guarded by a compiler macro" % (ccrit, gcrit),
+                         dict(kind="configs", gcc=gcrit, clang=ccrit), found_input=False)
 
     # ------------------------------------------------------------ (c) exceptions raised inside a region
     ecases = [("c05 3 0 %d 0 %d %s |" % (trig, len(THREADS), " ".join(map(str, THREADS))), "om_assert inside the %s loop (target too small), nested 3-layer model" % nm)
@@ -410,13 +522,14 @@ def main(replay=None):
                   rule="footprint cases: (model, mesh pair, loop, container kind) with the accesses of every region/iteration compared as multisets; differential cases: (model, assembly function) over thread counts %s; non-trivial = every case (each has >= 12 iterations per region)" % THREADS,
                   samples=[c[2] for c in fp_cases[:2]] + [c[0] for c in dcases[:2]],
                   op_distribution=fdist, footprint_cases=len(fp_cases), footprint_regions=fp_regions, footprint_accesses=fp_acc,
-                  footprint_mismatches=fp_mism, thread_counts=THREADS, differential_runs=ndiff_runs,
+                  footprint_mismatches=fp_mism, hook_cases=len(hk_cases), hook_single_iteration_runs=hk_iters, hook_mismatches=hk_mism, hook_markers_present=hooks_present, thread_counts=THREADS, differential_runs=ndiff_runs,
                   critical_vector_max_relative_deviation=maxrel, critical_vector_cases_with_rounding_differences=crit_diff,
                   exception_cases=len(ecases), exception_cases_propagating_for_all_thread_counts=exc_ok,
                   models=[d for _, d, _, _ in mods], hypothesis_well_indexed_checked_on=len(dumps), hypothesis_failures=hyp_bad,
                   parallel_loops=[dict(name=r["name"], where="%s:%d" % (r["file"], r["line"]), variant=r["variant"], critical=r["critical"],
                                        wrapped=r["wrapped"], rethrow=r["rethrow"]) for r in regs],
-                  dead_pragmas=gen.get("dead", []), hammer_runs=hammered, thread_sanitizer=tsan,
+                  dead_pragmas=gen.get("dead", []), hammer_runs=hammered, thread_sanitizer=tsan, clang_libomp=clang,
+                  configurations={t: dict(critical=c.get("critical"), dead=c.get("dead"), loops=len(c.get("regions", []))) for t, c in gen.get("configs", {}).items()},
                   traces_validated_against_impl=len(fp_cases) - fp_mism,
                   explanation="theorems hold for every schedule of the model; the tie is the translator (loop descriptors regenerated from the sources), the footprint correspondence through the templates, and thread-count differential runs of the compiled library")
     ck.cov["trusted_base"] += ["translator translators/t_parloops.py (pattern based; unknown syntax is reported, never guessed)",
